@@ -11,10 +11,10 @@ pub fn assert_admin(deps: Deps, env: &Env, sender: &Addr) -> Result<(), Contract
     let contract_info = deps
         .querier
         .query_wasm_contract_info(env.contract.address.clone())?;
-    if let Some(admin) = contract_info.admin {
-        if sender != deps.api.addr_validate(admin.as_str())? {
-            return Err(ContractError::Unauthorized {});
-        }
+    // if the contract has no admin, only its creator is authorized
+    let admin = contract_info.admin.unwrap_or(contract_info.creator);
+    if sender != deps.api.addr_validate(admin.as_str())? {
+        return Err(ContractError::Unauthorized {});
     }
     Ok(())
 }
